@@ -42,6 +42,9 @@ func (f FieldShape) Tag() reflect.StructTag {
 // Shape is a struct shape a user program could declare.
 type Shape struct {
 	Fields []FieldShape
+	// EmbedID: the ID field is declared in a struct embedded in the shape
+	// (struct{ Base; ... } with Base struct{ ID string `...` }).
+	EmbedID bool
 }
 
 func (s Shape) String() string {
@@ -50,14 +53,25 @@ func (s Shape) String() string {
 		parts[i] = fmt.Sprintf("%s %v `%s`", f.Name, f.GoType, f.Tag())
 	}
 
+	if s.EmbedID {
+		return "struct{Base (embedded, holds ID); " + strings.Join(parts, "; ") + "}"
+	}
+
 	return "struct{" + strings.Join(parts, "; ") + "}"
 }
 
 // StructType builds the type with reflect.StructOf.
 func (s Shape) StructType() reflect.Type {
-	fields := make([]reflect.StructField, len(s.Fields))
-	for i, f := range s.Fields {
-		fields[i] = reflect.StructField{Name: f.Name, Type: f.GoType, Tag: f.Tag()}
+	fields := []reflect.StructField{}
+
+	for _, f := range s.Fields {
+		sf := reflect.StructField{Name: f.Name, Type: f.GoType, Tag: f.Tag()}
+
+		if s.EmbedID && f.Name == "ID" {
+			sf = reflect.StructField{Name: "Base", Anonymous: true, Type: reflect.StructOf([]reflect.StructField{sf})}
+		}
+
+		fields = append(fields, sf)
 	}
 
 	return reflect.StructOf(fields)
@@ -168,6 +182,11 @@ func StructShape(t *rapid.T) Shape {
 
 	if len(s.Fields) > 1 {
 		s.Fields = rapid.Permutation(s.Fields).Draw(t, "order")
+	}
+
+	// A well-formed ID may also come from an embedded struct.
+	if idForm == "ok" && rapid.IntRange(0, 5).Draw(t, "embedid") == 0 {
+		s.EmbedID = true
 	}
 
 	return s
